@@ -25,9 +25,12 @@
      then sort.Sort(traits)                               trait_lt
    genum/gen/values.go Value.Less, sort.Sort(values)      value_lt / genum_values
    genum/gen/traits.go TraitInstances.Less                inst_lt
-   gencommon/imports.go: imports map[path]*ImportDesc;    imap, calc_imports (imap_set),
-     calcImports, addNamed, GetActive (range + filter       add_named, get_active, import_lt
-     inUse + sort.Slice by PkgPath)
+   gencommon/imports.go: imports map[path]*ImportDesc     imap, ihandler, calc_handler
+     + shadowed slice; calcImports (map + shadowed           (calc_step, imap_set),
+     slice), addNamed, UseName (range over the map:           add_named / add_named_h,
+     idempotent flag writes), GetActive (range + filter       use_name, get_active,
+     inUse + shadowed in-use + sort.Slice by                  import_lt
+     (PkgPath, Alias))
    gerror/gen/generate.go createErrorDesc:                gerror_fields, efield_lt
      sort.Sort(fields) by Name; FieldsToPrint/ToClone       fields_to_print / fields_to_clone
    gencommon/comments.go:73, interface.go:108: map        lookup_first (first match in
@@ -175,13 +178,6 @@ Fixpoint imap_set (k : string) (v : import_desc) (m : imap) : imap :=
   | [] => [(k, v)]
   | (k', v') :: r => if String.eqb k' k then (k, v) :: r else (k', v') :: imap_set k v r
   end.
-(* calcImports: one entry per import spec (path, alias, aliasIsPackageName) *)
-Definition calc_imports (specs : list (string * string * bool)) : imap :=
-  fold_left (fun m s => match s with
-                        | (path, alias, ispkg) =>
-                            imap_set path {| im_alias := alias; im_path := path;
-                                             im_alias_is_pkg := ispkg; im_inuse := false |} m
-                        end) specs [].
 (* addNamed for a type of package (path, name): mark in use, or insert a fresh entry *)
 Definition add_named (path pkgname : string) (ispkg : bool) (m : imap) : imap :=
   match imap_get path m with
@@ -190,11 +186,41 @@ Definition add_named (path pkgname : string) (ispkg : bool) (m : imap) : imap :=
   | None => imap_set path {| im_alias := pkgname; im_path := path; im_alias_is_pkg := ispkg;
                              im_inuse := true |} m
   end.
-Definition import_lt (a b : import_desc) : bool := str_lt (im_path a) (im_path b).
+Record ihandler := { ih_imports : imap; ih_shadowed : list import_desc }.
+(* calcImports: one step per import spec (path, alias, aliasIsPackageName), source order *)
+Definition calc_step (h : ihandler) (s : string * string * bool) : ihandler :=
+  match s with
+  | (path, alias, ispkg) =>
+      {| ih_imports := imap_set path {| im_alias := alias; im_path := path;
+                                        im_alias_is_pkg := ispkg; im_inuse := false |} (ih_imports h);
+         ih_shadowed := match imap_get path (ih_imports h) with
+                        | Some prev => (ih_shadowed h ++ [prev])%list
+                        | None => ih_shadowed h
+                        end |}
+  end.
+Definition calc_handler (specs : list (string * string * bool)) : ihandler :=
+  fold_left calc_step specs {| ih_imports := []; ih_shadowed := [] |}.
+Definition add_named_h (path pkgname : string) (ispkg : bool) (h : ihandler) : ihandler :=
+  {| ih_imports := add_named path pkgname ispkg (ih_imports h); ih_shadowed := ih_shadowed h |}.
+Definition mark_used (d : import_desc) : import_desc :=
+  {| im_alias := im_alias d; im_path := im_path d; im_alias_is_pkg := im_alias_is_pkg d; im_inuse := true |}.
+(* UseName: `for _, i := range ih.imports { if i.Alias == name { i.inUse = true } }` in map
+   order pi, then the same over the shadowed slice *)
+Definition use_name (pi : imap -> imap) (name : string) (h : ihandler) : ihandler :=
+  {| ih_imports := fold_left (fun m kv => if String.eqb (im_alias (snd kv)) name
+                                          then imap_set (fst kv) (mark_used (snd kv)) m else m)
+                             (pi (ih_imports h)) (ih_imports h);
+     ih_shadowed := map (fun d => if String.eqb (im_alias d) name then mark_used d else d) (ih_shadowed h) |}.
+Definition use_name_found (name : string) (h : ihandler) : bool :=
+  existsb (fun d => String.eqb (im_alias d) name) (map snd (ih_imports h) ++ ih_shadowed h)%list.
+(* sort.Slice less: PkgPath, then Alias *)
+Definition import_lt (a b : import_desc) : bool :=
+  if String.eqb (im_path a) (im_path b) then str_lt (im_alias a) (im_alias b)
+  else str_lt (im_path a) (im_path b).
 (* GetActive *)
-Definition get_active (pi : imap -> imap) (srt : list import_desc -> list import_desc) (m : imap)
+Definition get_active (pi : imap -> imap) (srt : list import_desc -> list import_desc) (h : ihandler)
   : list import_desc :=
-  srt (filter im_inuse (map snd (pi m))).
+  srt (filter im_inuse (map snd (pi (ih_imports h))) ++ filter im_inuse (ih_shadowed h))%list.
 
 (* ------------------------------------------------------------------ gerror *)
 Record efield := { ef_name : string; ef_printas : string; ef_clone : bool; ef_print : bool }.
